@@ -90,9 +90,10 @@ func c20Tag(sql string) int64 {
 }
 
 type c20Op struct {
-	kind string // execute | query | request | hwm
-	tag  int64
-	slow bool
+	kind    string // execute | query | request | hwm
+	tag     int64
+	slow    bool
+	retries int // the caller's retries argument (0 = the HTTP API's default)
 }
 
 func TestVerifC20Client(t *testing.T) {
@@ -101,17 +102,23 @@ func TestVerifC20Client(t *testing.T) {
 	r := vfNewRng(2020)
 
 	tn := mustNewMockTransport()
+	var exMu sync.Mutex
+	var executed []int64 // leader side: every command the database was asked to run, in order
+	note := func(tag int64) { exMu.Lock(); executed = append(executed, tag); exMu.Unlock() }
 	db := &mockDatabase{
 		executeFn: func(er *command.ExecuteRequest) ([]*command.ExecuteQueryResponse, uint64, error) {
 			tag := c20Tag(er.Request.Statements[0].Sql)
+			note(tag)
 			return []*command.ExecuteQueryResponse{{Result: &command.ExecuteQueryResponse_E{E: &command.ExecuteResult{LastInsertId: tag}}}}, uint64(tag), nil
 		},
 		queryFn: func(qr *command.QueryRequest) ([]*command.QueryRows, uint64, error) {
 			tag := c20Tag(qr.Request.Statements[0].Sql)
+			note(tag)
 			return []*command.QueryRows{{Columns: []string{fmt.Sprint(tag)}}}, uint64(tag), nil
 		},
 		requestFn: func(rr *command.ExecuteQueryRequest) ([]*command.ExecuteQueryResponse, uint64, uint64, error) {
 			tag := c20Tag(rr.Request.Statements[0].Sql)
+			note(tag)
 			return []*command.ExecuteQueryResponse{{Result: &command.ExecuteQueryResponse_E{E: &command.ExecuteResult{LastInsertId: tag}}}}, 0, uint64(tag), nil
 		},
 	}
@@ -138,13 +145,20 @@ func TestVerifC20Client(t *testing.T) {
 			if k2 == "hwm" {
 				continue // the answer to a broadcast carries no tag
 			}
-			seqs = append(seqs, []c20Op{{k1, next(), true}, {k2, next(), false}, {k2, next(), false}})
+			seqs = append(seqs, []c20Op{{k1, next(), true, 0}, {k2, next(), false, 0}, {k2, next(), false, 0}})
 		}
 	}
+	// a caller that asks for retries
+	seqs = append(seqs, []c20Op{{"execute", next(), true, 1}, {"execute", next(), false, 0}})
 	for i := 0; i < vfScale(4, 60); i++ {
 		var sq []c20Op
 		for j := 0; j < 6; j++ {
-			sq = append(sq, c20Op{kinds[r.Intn(len(kinds))], next(), r.Intn(4) == 0})
+			k := kinds[r.Intn(len(kinds))]
+			rt := 0
+			if k != "hwm" && r.Intn(5) == 0 {
+				rt = 1
+			}
+			sq = append(sq, c20Op{k, next(), r.Intn(4) == 0, rt})
 		}
 		seqs = append(seqs, sq)
 	}
@@ -157,7 +171,7 @@ func TestVerifC20Client(t *testing.T) {
 		impl = append(impl, "ok")
 		var desc []string
 		for _, op := range sq {
-			desc = append(desc, fmt.Sprintf("%s(tag %d%s)", op.kind, op.tag, map[bool]string{true: ", answer arrives after the timeout", false: ""}[op.slow]))
+			desc = append(desc, fmt.Sprintf("%s(tag %d%s%s)", op.kind, op.tag, map[bool]string{true: ", answer arrives after the timeout", false: ""}[op.slow], map[bool]string{true: fmt.Sprintf(", retries=%d", op.retries), false: ""}[op.retries > 0]))
 		}
 		nontrivial := false
 		for j, op := range sq {
@@ -166,9 +180,12 @@ func TestVerifC20Client(t *testing.T) {
 			}
 		}
 		rep.Case(strings.Join(desc, " ; "), nontrivial)
+		exMu.Lock()
+		executed = nil
+		exMu.Unlock()
 		for j, op := range sq {
 			if op.slow {
-				nw.delayUntil.Store(time.Now().Add(3*timeout + 100*time.Millisecond).UnixNano())
+				nw.delayUntil.Store(time.Now().Add(time.Duration(3+op.retries)*timeout + 100*time.Millisecond).UnixNano())
 			}
 			got := int64(-1)
 			var err error
@@ -176,19 +193,19 @@ func TestVerifC20Client(t *testing.T) {
 			switch op.kind {
 			case "execute":
 				var res []*command.ExecuteQueryResponse
-				res, _, err = cl.Execute(ctx, &command.ExecuteRequest{Request: req(op.tag)}, s.Addr(), nil, timeout, 0)
+				res, _, err = cl.Execute(ctx, &command.ExecuteRequest{Request: req(op.tag)}, s.Addr(), nil, timeout, op.retries)
 				if err == nil && len(res) == 1 && res[0].GetE() != nil {
 					got = res[0].GetE().LastInsertId
 				}
 			case "query":
 				var res []*command.QueryRows
-				res, _, err = cl.Query(ctx, &command.QueryRequest{Request: req(op.tag)}, s.Addr(), nil, timeout, 0)
+				res, _, err = cl.Query(ctx, &command.QueryRequest{Request: req(op.tag)}, s.Addr(), nil, timeout, op.retries)
 				if err == nil && len(res) == 1 && len(res[0].Columns) == 1 {
 					got, _ = strconv.ParseInt(res[0].Columns[0], 10, 64)
 				}
 			case "request":
 				var res []*command.ExecuteQueryResponse
-				res, _, _, err = cl.Request(ctx, &command.ExecuteQueryRequest{Request: req(op.tag)}, s.Addr(), nil, timeout, 0)
+				res, _, _, err = cl.Request(ctx, &command.ExecuteQueryRequest{Request: req(op.tag)}, s.Addr(), nil, timeout, op.retries)
 				if err == nil && len(res) == 1 && res[0].GetE() != nil {
 					got = res[0].GetE().LastInsertId
 				}
@@ -216,7 +233,7 @@ func TestVerifC20Client(t *testing.T) {
 			if op.kind == "hwm" {
 				mk = "hwm"
 			}
-			ops = append(ops, fmt.Sprintf("%s %d %s", mk, op.tag, map[bool]string{true: "1", false: "0"}[op.slow]))
+			ops = append(ops, fmt.Sprintf("%s %d %s %d", mk, op.tag, map[bool]string{true: "1", false: "0"}[op.slow], op.retries))
 			impl = append(impl, obs)
 			rep.Count("kind:" + op.kind)
 			if op.slow {
@@ -232,12 +249,44 @@ func TestVerifC20Client(t *testing.T) {
 					map[string]interface{}{"sequence": desc, "failing_request": j + 1, "tag_sent": op.tag, "tag_in_answer": got})
 			}
 			if op.slow {
+				// the leader finishes what it was sent; how often did it execute this request?
+				time.Sleep(30 * time.Millisecond)
+				exMu.Lock()
+				n := 0
+				for _, e := range executed {
+					if e == op.tag {
+						n++
+					}
+				}
+				exMu.Unlock()
+				if n > 1 && op.kind != "hwm" {
+					sig := "client:" + op.kind + ":executed-more-than-once-on-the-leader-without-retries-requested"
+					if op.retries > 0 {
+						sig = "client:" + op.kind + ":executed-again-on-the-leader-for-a-caller-requested-retry"
+					}
+					rep.Fail(sig, fmt.Sprintf("one cluster.Client, requests in order [%s]: request %d (%s, tag %d, retries=%d) whose answer was late was sent %d times and the leader executed it %d times", strings.Join(desc, " ; "), j+1, op.kind, op.tag, op.retries, n, n),
+						map[string]interface{}{"sequence": desc, "request": j + 1, "tag": op.tag, "retries": op.retries, "executions_on_leader": n})
+				}
 				// let the late answers arrive before the next request
 				if d := time.Until(time.Unix(0, nw.delayUntil.Load())); d > 0 {
 					time.Sleep(d)
 				}
 				time.Sleep(60 * time.Millisecond)
 			}
+		}
+		// the leader-side execution log of the whole sequence (broadcasts do not reach the database)
+		time.Sleep(20 * time.Millisecond)
+		exMu.Lock()
+		var ex []string
+		for _, e := range executed {
+			ex = append(ex, fmt.Sprint(e))
+		}
+		exMu.Unlock()
+		ops = append(ops, "executed")
+		if len(ex) == 0 {
+			impl = append(impl, "-")
+		} else {
+			impl = append(impl, strings.Join(ex, ","))
 		}
 		rep.TracesValidated++
 		if si < 2 {
